@@ -477,6 +477,15 @@ impl Engine for C07 {
             }
             cfgs.push(k);
         }
+        // now and then a configuration with RAISED limits among them: a neighbour's limits must
+        // not become anybody else's (depth kept modest: simulated threads have 2 MiB stacks)
+        if c.chance(1, 4) {
+            let mut k = docgen::draw_cfg(&mut c, false);
+            k.depth_limit = 120;
+            k.loop_limit = 3000;
+            k.var_limit = 5000;
+            cfgs.push(k);
+        }
         // server-expressible configurations (only add_metadata) for router requests
         let mut server_cfgs: Vec<usize> = cfgs.iter().enumerate().filter(|(_, k)| k.server_expressible()).map(|(i, _)| i).collect();
         if server_cfgs.len() < 2 && c.chance(1, 2) {
